@@ -36,6 +36,11 @@ var c15Corpus = []string{
 	"/%2F/evil.example", "/ /evil.example", "/ünï", "/x;param",
 }
 
+// c15Pages: the library's own routes (the OAuth2 start is left out: sending the browser to the provider
+// is its purpose); logout last, it ends the session the sweep runs in.
+var c15Pages = []string{"/login", "/otp/login", "/otp/add", "/otp/clear", "/recover", "/recover/end", "/register", "/2fa/totp/setup", "/2fa/totp/confirm", "/2fa/totp/qr",
+	"/2fa/totp/remove", "/2fa/totp/validate", "/2fa/sms/setup", "/2fa/sms/confirm", "/2fa/sms/remove", "/2fa/sms/validate", "/2fa/recovery/regen", "/logout"}
+
 type c15ctx struct {
 	c    *RunCtx
 	w    *world.World
@@ -136,7 +141,7 @@ func c15Unit(c *RunCtx, unit int) {
 	jsonMode := unit%2 == 1
 	mount := []string{"/auth", ""}[(unit/2)%2]
 	r := Rng(c.Seed, "C15", unit)
-	cfg := world.Cfg{Modules: []string{"auth", "otp", "oauth2", "logout"}, TwoFA: []string{"totp", "sms"}, Mount: mount, JSON: jsonMode, Providers: []string{"alpha"}, OAuth2Confirmed: true}
+	cfg := world.Cfg{Modules: []string{"auth", "otp", "oauth2", "logout", "recover", "register"}, TwoFA: []string{"totp", "sms"}, Mount: mount, JSON: jsonMode, Providers: []string{"alpha"}, OAuth2Confirmed: true}
 	w, err := world.New(cfg, "c15")
 	if err != nil {
 		c.Stats.Inconclusive = append(c.Stats.Inconclusive, "world: "+err.Error())
@@ -163,7 +168,10 @@ func c15Unit(c *RunCtx, unit int) {
 		}
 	}
 	P := w.P
-	for _, R := range corpus {
+	for ri, R := range corpus {
+		if ri%4 != (unit/4)%4 {
+			continue // another unit's slice
+		}
 		if x.bad {
 			return
 		}
@@ -315,6 +323,33 @@ func c15Unit(c *RunCtx, unit int) {
 				}
 			}
 		}
+		// --- page sweep: every page and form handler of the library asked for with a return target in the
+		// query (and, for forms, in the body too) by an anonymous browser, a logged-in one and one half way
+		// through a TOTP login; none of these requests completes a login, so wherever the browser is sent,
+		// it is somewhere on the site
+		for _, kind := range []string{"anon", "user", "pending"} {
+			b := x.browser()
+			switch kind {
+			case "user":
+				w.Do(b, world.Req{Method: "POST", Path: P("/login"), Form: map[string]string{"email": "plain@site.test", "password": pw}})
+			case "pending":
+				w.Do(b, world.Req{Method: "POST", Path: P("/login"), Form: map[string]string{"email": "totp@site.test", "password": pw}})
+			}
+			for _, rt := range c15Pages {
+				methods := []string{"GET", "POST"}
+				if rt == "/logout" {
+					methods = []string{"GET", "POST", "DELETE"}
+				}
+				for _, m := range methods {
+					rq := world.Req{Method: m, Path: P(rt) + "?redir=" + url.QueryEscape(R)}
+					if m == "POST" {
+						rq.Form = map[string]string{"redir": R}
+					}
+					rec := w.Do(b, rq)
+					x.judge("page-"+kind+"-"+m+"-"+rt, R, rec, false, "")
+				}
+			}
+		}
 	}
 	if !x.bad {
 		c.Stats.Sample(map[string]interface{}{"unit": unit, "mode": modeOf(cfg), "mount": mount, "corpus_size": len(corpus), "examples": []string{"//evil.example/x", "/\\evil.example/x", "/\\t/evil.example", "https:evil.example", "/after/login"}})
@@ -324,8 +359,8 @@ func c15Unit(c *RunCtx, unit int) {
 func init() {
 	register(&Check{
 		ID: "C15", Level: "exploration",
-		Rule:  "a corpus of ~60 return-target spellings (absolute URLs in several schemes and cases, '//h', '///h', '/\\h', '\\/h', '\\\\h', embedded TAB/LF/CR, leading space/NUL/controls, 'https:h', 'http:/h', userinfo and backslash-userinfo tricks, ports, IPv6, javascript:/data:/custom schemes, 3 KB values, plus benign same-site paths; thorough adds 400 seeded prefix x separator x host x suffix compositions) x every flow that follows the parameter (password login with redir in body and in query, OTP login, TOTP and SMS second step incl. the hijack redirect that carries the query, OAuth2 start→callback, the access middleware's own redirect followed by the login it leads to) x form and JSON mode x two mount paths. Every emitted Location header (as net/http puts it on the wire) and JSON 'location' is classified by a WHATWG-faithful resolver against https and http deployments of the site (the resolver has a 75-row self-test run before every unit): it must never be another origin, and an off-site supplied value must be replaced by the configured default. distinct_nontrivial = distinct (flow, header/json, class of supplied value, spelling family, class of emitted value, final step) signatures.",
-		Units: func(t string) int { return 4 },
+		Rule:  "a corpus of ~60 return-target spellings (absolute URLs in several schemes and cases, '//h', '///h', '/\\h', '\\/h', '\\\\h', embedded TAB/LF/CR, leading space/NUL/controls, 'https:h', 'http:/h', userinfo and backslash-userinfo tricks, ports, IPv6, javascript:/data:/custom schemes, 3 KB values, plus benign same-site paths; thorough adds 400 seeded prefix x separator x host x suffix compositions) x every flow that follows the parameter (password login with redir in body and in query, OTP login, TOTP and SMS second step incl. the hijack redirect that carries the query, OAuth2 start→callback, the access middleware's own redirect followed by the login it leads to; plus a page sweep: every page and form handler the library mounts (login, otp, recover, register, all 2fa pages, logout; not the OAuth2 start) requested by GET and POST with the target in the query and the body by an anonymous browser, a logged-in one and one half way through a TOTP login) x form and JSON mode x two mount paths. Every emitted Location header (as net/http puts it on the wire) and JSON 'location' is classified by a WHATWG-faithful resolver against https and http deployments of the site (the resolver has a 75-row self-test run before every unit): it must never be another origin, and an off-site supplied value must be replaced by the configured default. distinct_nontrivial = distinct (flow, header/json, class of supplied value, spelling family, class of emitted value, final step) signatures.",
+		Units: func(t string) int { return 16 }, // 2 modes x 2 mounts x 4 slices of the corpus
 		Run:   c15Unit,
 		Floors: func(t string) map[string]int {
 			return map[string]int{"locations-judged:header": 500, "locations-judged:json": 500, "benign-target-followed": 50}
